@@ -127,8 +127,7 @@ func Anchors(w *World) *SimAnchors {
 	}
 	st := a.SimT.Underlying().(*types.Struct)
 	instT := w.NamedType("Instruction")
-	for i := 0; i < st.NumFields(); i++ {
-		f := st.Field(i)
+	for _, f := range flatFields(st) {
 		if sl, ok := f.Type().Underlying().(*types.Slice); ok {
 			if types.Identical(sl.Elem(), instT) {
 				if a.MemField != "" {
@@ -376,4 +375,18 @@ func allocsType(fn *ssa.Function, t types.Type) bool {
 		}
 	}
 	return false
+}
+
+// flatFields: the fields of st with embedded structs flattened (promoted fields).
+func flatFields(st *types.Struct) []*types.Var {
+	var out []*types.Var
+	for i := 0; i < st.NumFields(); i++ {
+		f := st.Field(i)
+		if embeddedStruct(f) {
+			out = append(out, flatFields(f.Type().Underlying().(*types.Struct))...)
+			continue
+		}
+		out = append(out, f)
+	}
+	return out
 }
